@@ -62,6 +62,12 @@ CHECKS = {
             "/ NoResumeWhilePaused / AllResumedAfterDrain / RotationFair / InboundExact / InboundCarried / LoopTerminates; "
             "behaviours are replayed on the real Outbound and Inbound with producers that perform the scripted re-entrant actions; "
             "DilationFlowObs.tla decides", "3/C15"),
+    "C16": ("DilationTimer.tla: TrafficTimer's extracted transition table + Manager's ping/timer glue with explicit integer time "
+            "(intervals 2, 3 (thorough: 5) ticks, pong latencies 0..I-1 or silence, loss / reconnect / stop at every tick); TLC checks "
+            "ResponsiveNeverDropped / SilentDropped / DroppedWithinThree / NoTimerWithoutConn / MonitoredWhenConnected; behaviours are "
+            "replayed on a real Leader Manager + TrafficTimer on the virtual clock against a real Follower Manager; timer deadline, "
+            "machine state, pings and monitor disconnects compared after every step; DilationTimerObs.tla decides on per-step "
+            "snapshots", "3/C16"),
     "C19": ("Codes.tla over a frozen copy of the PGP word lists: TLC checks that each list is a bijection from bytes and that every "
             "completion extends the typed prefix and is allocatable, and enumerates every typed prefix / short code string; the real "
             "get_completions / choose_words / validate_code are run on every enumerated case; the code-entry protocol (one of "
@@ -126,6 +132,7 @@ NOTES = {
            "and absurd length prefixes leave the receiver waiting and are not required to drop",
     "C15": "2 (thorough: 3) producers, <=4 transport signals in TLC; producers and the L2 connection are recording stand-ins, "
            "Outbound/Inbound/PullToPush/Cooperator are real",
+    "C16": "integer time (ties ordered by the behaviour); scripted L2 connections; horizons of 10-22 ticks",
     "C19": "the word lists in the spec are a frozen copy of the pinned commit; os.urandom is assumed uniform; TLC enumerates all "
            "prefixes of all words for 2 (thorough: 3) word codes; code-entry schedules as for the mailbox checks",
     "C20": "field values are abstracted to JSON kinds (str/int/float/bool/null/list/dict/missing) with a few concrete "
